@@ -106,7 +106,7 @@ m = {
               "kind_free_text": "repository-specific static analyser (go/packages + go/ssa): dominance, provenance, who-may-call/write, schema and layout rules; one obligation per rule instance"}],
  "checks": checks,
  "not_applicable": [{"property_id": p, "reason": not_applicable.get(p, DEFAULT_NA)} for p in props if p not in claimed],
- "notes": "All checks are static: they load and type-check /repo's current working tree on every run and decide rule obligations on SSA/AST/DDL. Thorough tier additionally applies the seeded variants in /verif/selftest through an in-memory overlay and requires each rule to fire on its variants (and stay silent on benign ones). fix: commits in /repo: 385179f, a84dd4a, 6642a29 (see known_findings.txt).",
+ "notes": "All checks are static: they load and type-check /repo's current working tree on every run and decide rule obligations on SSA/AST/DDL. Thorough tier additionally applies the seeded variants in /verif/selftest through an in-memory overlay and requires each rule to fire on its variants (and stay silent on benign ones). fix: commits in /repo: 385179f, a84dd4a, 6642a29, cf2d626 (see known_findings.txt).",
 }
 json.dump(m, open(os.path.join(HERE, "MANIFEST.json"), "w"), indent=1)
 print("claimed:", sorted(claimed), "n/a:", len(m["not_applicable"]))
